@@ -10,3 +10,11 @@ package crypto
 //@   trusted
 //@   ensures err == nil ==> fresh(result0)
 //@   assigns nothing
+
+// A signature component triple is valid exactly when v is 0 or 1, r and s lie in [1, N) and,
+// from Homestead on (EIP-2), s is in the lower half of the group order.
+//@ func ValidateSignatureValues
+//@   requires r != nil && s != nil
+//@   ensures[C12] result <==> (v <= 1 && 1 <= big(r) && big(r) < SECP_N && 1 <= big(s) && big(s) < SECP_N && (homestead ==> big(s) <= SECP_HALFN))
+//@   assigns nothing
+//@   nopanic[C12]
